@@ -216,7 +216,12 @@ struct Inst<T, NumMag, DenMag, false> : InstBase<T, NumMag, DenMag> {
 '''
 
 HARNESS_MAIN = r'''
+#include <csetjmp>
+#include <csignal>
+#include <unistd.h>
 extern const Entry* const chunks[]; extern const int chunk_sizes[]; extern const int n_chunks;
+static sigjmp_buf g_jb; static volatile sig_atomic_t g_in = 0;
+static void on_fpe(int) { if (g_in) siglongjmp(g_jb, 1); _exit(97); }
 static volatile long g_ub = 0;
 extern "C" void __ubsan_on_report(void) { g_ub = g_ub + 1; }
 static std::string s128(i128 v) {
@@ -238,6 +243,7 @@ static i128 tlo(const Entry& e) { return e.is_signed ? -((i128)1 << (e.bits - 1)
 static i128 thi(const Entry& e) { return e.is_signed ? ((i128)1 << (e.bits - 1)) - 1 : ((i128)1 << e.bits) - 1; }
 int main() {
     char line[512];
+    signal(SIGFPE, on_fpe);
     while (fgets(line, sizeof line, stdin)) {
         char cmd; int id; char a[4][64] = {{0}};
         char kind[32] = {0};
@@ -246,9 +252,12 @@ int main() {
             if (sscanf(line, "%c %d %63s", &cmd, &id, a[0]) != 3) { puts("bad"); continue; }
             const Entry* e = find(id); if (!e) { puts("bad"); continue; }
             i128 x = p128(a[0]);
+            if (sigsetjmp(g_jb, 1)) { g_in = 0; printf("P %d %s ovf=fpe trunc=fpe lossy=fpe val=fpe val2=fpe ub=0\n", id, a[0]); fflush(stdout); continue; }
+            g_in = 1;
             bool o = e->ovf(x), t = e->tr(x), l = e->lossy(x);
             long ub0 = g_ub; std::string v = "-", v2 = "-";
             if (e->compiles && !l) { v = s128(e->conv(x)); v2 = s128(e->conv2(x)); }
+            g_in = 0;
             printf("P %d %s ovf=%d trunc=%d lossy=%d val=%s val2=%s ub=%ld\n", id, a[0], o, t, l, v.c_str(), v2.c_str(), g_ub - ub0);
         } else if (line[0] == 'S') {
             // S id N D lo hi kind d plo phi
@@ -259,9 +268,13 @@ int main() {
             int pb = e->bits < 32 ? 32 : e->bits; bool ps = e->bits < 32 ? true : bool(e->is_signed);
             i128 plo = ps ? -((i128)1 << (pb - 1)) : 0, phi = ps ? ((i128)1 << (pb - 1)) - 1 : ((i128)1 << pb) - 1;
             long n = 0, cm = 0, of_ovf = 0, of_tr = 0, of_lossy = 0, vbad = 0, ub = 0, cleared = 0, nontriv = 0;
-            std::string first_cm = "-", first_ovf = "-", first_tr = "-", first_val = "-", first_ub = "-";
-            for (i128 x = lo; x <= hi; ++x) {
+            volatile long fpe = 0;
+            std::string first_cm = "-", first_ovf = "-", first_tr = "-", first_val = "-", first_ub = "-", first_fpe = "-";
+            for (volatile i128 xv = lo; xv <= hi; xv = xv + 1) {
+                i128 x = xv;
                 ++n;
+                if (sigsetjmp(g_jb, 1)) { g_in = 0; if (!fpe) first_fpe = s128(xv); fpe = fpe + 1; continue; }
+                g_in = 1;
                 bool o = e->ovf(x), t = e->tr(x), l = e->lossy(x);
                 // (a) certificate from the Lean model
                 bool mo = !(clo <= x && x <= chi);
@@ -282,9 +295,10 @@ int main() {
                     if (g_ub != ub0) { if (!ub++) first_ub = s128(x); }
                     if (!exact || v * D != y) { if (!vbad++) first_val = s128(x); }
                 }
+                g_in = 0;
             }
-            printf("S %d n=%ld cert_mismatch=%ld first_cm=%s oracle_ovf=%ld first_ovf=%s oracle_tr=%ld first_tr=%s oracle_lossy=%ld cleared=%ld val_bad=%ld first_val=%s ub=%ld first_ub=%s flagged=%ld\n",
-                   id, n, cm, first_cm.c_str(), of_ovf, first_ovf.c_str(), of_tr, first_tr.c_str(), of_lossy, cleared, vbad, first_val.c_str(), ub, first_ub.c_str(), nontriv);
+            printf("S %d n=%ld cert_mismatch=%ld first_cm=%s oracle_ovf=%ld first_ovf=%s oracle_tr=%ld first_tr=%s oracle_lossy=%ld cleared=%ld val_bad=%ld first_val=%s ub=%ld first_ub=%s flagged=%ld fpe=%ld first_fpe=%s\n",
+                   id, n, cm, first_cm.c_str(), of_ovf, first_ovf.c_str(), of_tr, first_tr.c_str(), of_lossy, cleared, vbad, first_val.c_str(), ub, first_ub.c_str(), nontriv, (long)fpe, first_fpe.c_str());
         } else { puts("bad"); }
         fflush(stdout);
     }
@@ -504,12 +518,21 @@ def explore(prop, tier, seed, rng, wd):
                     x = int(r["first_ub"])
                     violations.append({"what": f"checker-cleared conversion executes UB / unsigned wrap at x={x} (sanitizer report)",
                                        "class": f"ub-{t}-{n}-{d}", "rec": dict(base, kind="oracle", observable="ub", x=x), "props": ["C03"]})
+                if int(r.get("fpe", "0")):
+                    x = int(r["first_fpe"])
+                    violations.append({"what": f"a conversion checker or the conversion itself traps (SIGFPE: division by zero) at x={x} for factor {n}/{d} in {t}",
+                                       "class": f"fpe-{t}-{n}-{d}", "rec": dict(base, kind="oracle", observable="trap", x=x, count=int(r["fpe"])),
+                                       "props": ["C03", "C04"]})
             else:
                 x = int(f[2])
                 r = kv(a)
                 m = kv(mans[mi])
                 mi += 1
                 stats["points"] += 1
+                if r["ovf"] == "fpe":
+                    violations.append({"what": f"a conversion checker or the conversion itself traps (SIGFPE) at x={x} for factor {n}/{d} in {t}",
+                                       "class": f"fpe-{t}-{n}-{d}", "rec": dict(base, kind="oracle", observable="trap", x=x), "props": ["C03", "C04"]})
+                    continue
                 if r["lossy"] == "0":
                     stats["cleared_conversions"] += 1
                 else:
